@@ -71,6 +71,13 @@ Definition klayer (bf : N) (k : key) : nat :=
   | KUser _ l => Nat.min l 255   (* Layer returns a uint8 *)
   end.
 
+(** The narrower built-in integer types (int8/16/32, uint8/16/32): DefaultLayer treats them as
+    integers, DefaultKeyCompare has no case for them and orders them by their marshaled JSON text
+    (so 10 sorts before 9).  They are modelled for the layer and order functions only (C14). *)
+Definition narrow_cmp (x y : Z) : comparison := bytes_cmp (dec_Z x) (dec_Z y).
+Definition narrow_layer (bf : N) (signed : bool) (z : Z) : nat :=
+  if signed then int_layer bf z else uint_layer bf (Z.to_N z).
+
 Definition unquote (bs : bytes) : option bytes :=
   match bs with
   | 34 :: r => match rev r with 34 :: m => Some (rev m) | _ => None end
